@@ -190,11 +190,13 @@ pub fn reload_market(m: &dyn DynMarket, how: u8) -> Result<Box<dyn DynMarket>, S
         0 => market_from_str(m.assets(), m.levels(), &m.to_json(false)),
         1 => market_from_str(m.assets(), m.levels(), &m.to_json(true)),
         h => {
+            // one path per thread, not removed between uses (saving over an existing, often longer file must replace it)
             let p = crate::engine::scratch_dir().join(format!("msnap-{}-{:?}.json", std::process::id(), std::thread::current().id()));
+            if !p.exists() {
+                let _ = std::fs::write(&p, format!("{{{}}}", " ".repeat(60_000)));
+            }
             m.save_json(&p, h == 3)?;
-            let r = market_from_file(m.assets(), m.levels(), &p);
-            let _ = std::fs::remove_file(&p);
-            r
+            market_from_file(m.assets(), m.levels(), &p)
         }
     }
 }
@@ -331,7 +333,6 @@ fn run_inner(case: &MarketCase, orc: MarketOracles, prop: &str, feat: &mut Marke
     let mut flags: Vec<bool> = vec![case.trading; n];
     let mut crossed_off = false;
     let mut reenabled_after_cross = false;
-    let mut budget = vec![[u32::MAX as u64 - 1; 2]; n];
     let total = case.ops.len();
     let fail = |sig: &str, step: usize, op: &(u8, Op), msg: String| Failure::new(prop, sig, format!("step {} asset {} op {:?}: {}", step, op.0, op.1, msg));
 
@@ -344,13 +345,9 @@ fn run_inner(case: &MarketCase, orc: MarketOracles, prop: &str, feat: &mut Marke
         if direct {
             feat.direct_ops += 1;
         }
-        let mut clamp = |bid: bool, vol: u32| -> u32 {
-            let k = bid as usize;
-            let avail = budget[a][k].saturating_sub(ops_left as u64 + 4).max(1);
-            let v = (vol.max(if case.zero_vols { 0 } else { 1 }) as u64).min(avail);
-            budget[a][k] = budget[a][k].saturating_sub(v);
-            v as u32
-        };
+        let min_vol: u64 = if case.zero_vols { 0 } else { 1 };
+        // admissible volumes from the observed state of asset `a` (see ops::admissible_vol)
+        let clamp = |bid: bool, vol: u32, own: u64, tradable: u64, rests: bool| -> u32 { crate::ops::admissible_vol(&pre[a].orders, pre[a].trade_vol as u64, bid, vol, own, tradable, rests, ops_left, min_vol) };
         let mut rejected_create = false;
         let mut is_toggle = false;
         // the order this operation placed or re-entered (asset `a`), if any
@@ -368,7 +365,11 @@ fn run_inner(case: &MarketCase, orc: MarketOracles, prop: &str, feat: &mut Marke
             Op::Create { bid, vol, trader, price } | Op::CreatePlace { bid, vol, trader, price } => {
                 let placing = matches!(op, Op::CreatePlace { .. });
                 let price = &crate::ops::limit_price(*bid, *price, case.ticks[a]);
-                let v = clamp(*bid, *vol);
+                let tradable = match (placing && flags[a], price) {
+                    (true, Some(p)) if p % case.ticks[a] == 0 => crate::ops::tradable_now(&pre[a].orders, *bid, *p),
+                    _ => 0,
+                };
+                let v = clamp(*bid, *vol, 0, tradable, price.is_some());
                 let on_grid = price.map_or(true, |p| p % case.ticks[a] == 0);
                 if !on_grid {
                     feat.offgrid_create += 1;
@@ -485,7 +486,13 @@ fn run_inner(case: &MarketCase, orc: MarketOracles, prop: &str, feat: &mut Marke
                 let price = &crate::ops::limit_price(o.bid, *price, case.ticks[a]);
                 if o.status == St::Active {
                     if let Some(v) = vol {
-                        vol = Some(if v > o.vol { o.vol.saturating_add(clamp(o.bid, v - o.vol)) } else { v.max(if case.zero_vols { 0 } else { 1 }) });
+                        vol = Some(if v > o.vol {
+                            let np = price.unwrap_or(o.price);
+                            let tradable = if flags[a] && np % case.ticks[a] == 0 { crate::ops::tradable_now(&pre[a].orders, o.bid, np) } else { 0 };
+                            o.vol.saturating_add(clamp(o.bid, v - o.vol, o.vol as u64, tradable, true))
+                        } else {
+                            v.max(min_vol as u32)
+                        });
                     }
                     let np = price.unwrap_or(o.price);
                     let requeue = price.is_some() || vol.map_or(false, |v| v >= o.vol);
